@@ -91,6 +91,32 @@ pub struct C18Case {
     pub shell: String,
     #[serde(default)]
     pub workdir_relative: bool,
+    /// name of a sub-directory of the sandbox tmp/ that is the TMPDIR of the scrut process ("" = tmp/ itself)
+    #[serde(default)]
+    pub tmp_sub: String,
+    /// name of the directory given with --work-directory ("" = "W")
+    #[serde(default)]
+    pub workdir_name: String,
+}
+
+/// directory / file names with characters that are special to a shell; none of the variables is set, the
+/// command substitutions are harmless, so a wrongly quoted use stays inside the sandbox
+const SPECIAL_NAMES: &[&str] = &["price$tag", "bt`echo x`q", "q`uote", "d\"q", "s'q", "b\\s", "a$b c"];
+
+fn path_char_class(name: &str) -> &'static str {
+    if name.contains('$') {
+        "dollar"
+    } else if name.contains('`') {
+        "backtick"
+    } else if name.contains('"') {
+        "dquote"
+    } else if name.contains('\'') {
+        "squote"
+    } else if name.contains('\\') {
+        "backslash"
+    } else {
+        "plain"
+    }
 }
 
 const FAMILIES: &[&str] = &[
@@ -165,8 +191,8 @@ fn ext(format: &str) -> &'static str {
     }
 }
 
-const DIRS: &[&str] = &["", "a", "b", "my dir", "deep/er", "d\u{e9}"];
-const NAMES: &[&str] = &["same", "same", "x", "test doc", "t-1"];
+const DIRS: &[&str] = &["", "a", "b", "my dir", "deep/er", "d\u{e9}", "price$tag", "bt`echo x`q", "q`uote", "d\"q", "s'q", "b\\s", "deep/a$b c"];
+const NAMES: &[&str] = &["same", "same", "x", "test doc", "t-1", "n$ame", "f`echo y`z", "q\"t", "it's", "back\\slash"];
 
 fn doc_at(rng: &mut Rng, dir: &str, name: &str, format: &str, tests: Vec<T>) -> Doc {
     let _ = rng;
@@ -226,7 +252,15 @@ fn gen(k: u64, rng: &mut Rng, thorough: bool) -> C18Case {
         hostile_env: false,
         shell: String::new(),
         workdir_relative: rng.bool(),
+        tmp_sub: String::new(),
+        workdir_name: String::new(),
     };
+    if rng.chance(1, 3) {
+        case.tmp_sub = (*rng.pick(SPECIAL_NAMES)).to_string();
+    }
+    if rng.chance(1, 2) {
+        case.workdir_name = (*rng.pick(SPECIAL_NAMES)).to_string();
+    }
     let sleep_delay = if thorough { 3000 } else { 2000 };
     // one plain document with a random location and name
     let plain = |rng: &mut Rng, fail: bool| -> Doc {
@@ -456,7 +490,7 @@ fn render(sb: &Sandbox, p: usize, d: usize, doc: &Doc) -> RenderedDoc {
             lines.push("---".into());
             lines.push(String::new());
         }
-        lines.push(format!("# document {}", doc.rel));
+        lines.push("# document".to_string());
         lines.push(String::new());
     }
     for (ti, t) in doc.tests.iter().enumerate() {
@@ -503,7 +537,7 @@ fn sample(case: &C18Case) -> Value {
         })
         .collect();
     json!({"family": case.family, "mode": case.mode, "shell": case.shell, "hostile_env": case.hostile_env,
-           "delay_ms": case.delay_ms, "processes": procs})
+           "delay_ms": case.delay_ms, "tmpdir_sub": case.tmp_sub, "workdir_name": case.workdir_name, "processes": procs})
 }
 
 fn canon(p: &Path) -> Option<PathBuf> {
@@ -559,6 +593,68 @@ fn work_listing(w: &Path) -> Vec<String> {
     v
 }
 
+/// everything below tmp/ split into (inside the TMPDIR given to scrut, beside it); `sub` itself is expected
+fn split_tree(sb: &Sandbox, sub: &str) -> (Vec<String>, Vec<String>) {
+    let all = sb.tmp_tree();
+    if sub.is_empty() {
+        return (all, vec![]);
+    }
+    let prefix = format!("{sub}/");
+    let mut inside = vec![];
+    let mut beside = vec![];
+    for p in all {
+        if p == sub {
+            continue;
+        }
+        match p.strip_prefix(&prefix) {
+            Some(r) => inside.push(r.to_string()),
+            None => beside.push(p),
+        }
+    }
+    (inside, beside)
+}
+
+/// entries (recursively) of `parent` that are not `name` or below it
+fn beside(parent: &Path, name: &str) -> Vec<String> {
+    fn walk(base: &Path, dir: &Path, out: &mut Vec<String>) {
+        if let Ok(rd) = std::fs::read_dir(dir) {
+            for e in rd.filter_map(|e| e.ok()) {
+                let p = e.path();
+                out.push(p.strip_prefix(base).unwrap_or(&p).display().to_string());
+                if p.is_dir() && !p.is_symlink() {
+                    walk(base, &p, out);
+                }
+            }
+        }
+    }
+    let mut all = vec![];
+    walk(parent, parent, &mut all);
+    let prefix = format!("{name}/");
+    let mut v: Vec<String> = all.into_iter().filter(|p| p != name && !p.starts_with(&prefix)).collect();
+    v.sort();
+    v
+}
+
+/// what kind of scrut directory shows up anywhere in the misplaced paths
+fn misplaced_kind(paths: &[String]) -> String {
+    let mut kinds = BTreeSet::new();
+    for p in paths {
+        for c in p.split('/') {
+            if c.starts_with("execution.") {
+                kinds.insert("execution");
+            } else if c.starts_with("temp.") {
+                kinds.insert("temp");
+            } else if c.starts_with(".state.") {
+                kinds.insert("state");
+            }
+        }
+    }
+    if kinds.is_empty() {
+        kinds.insert("other");
+    }
+    kinds.into_iter().collect::<Vec<_>>().join("+")
+}
+
 fn check(env: &Env, case: &C18Case) -> Checked {
     // context buckets are attached to every verdict (also to violations) so that the coverage floors
     // do not depend on whether a class currently violates
@@ -608,21 +704,30 @@ fn check_inner(env: &Env, case: &C18Case, pre: &mut Vec<String>) -> Checked {
         _ => None,
     };
     // --work-directory
-    let wdir = sb.root.join("W");
+    let wd_parent = sb.root.join("wd");
+    let wname = if case.workdir_name.is_empty() { "W" } else { case.workdir_name.as_str() };
+    let wdir = wd_parent.join(wname);
     if mode == "workdir" {
         let _ = std::fs::create_dir_all(&wdir);
         let _ = std::fs::write(wdir.join("sentinel"), "kept\n");
     }
-    let Some(tmp_canon) = canon(&sb.tmp) else {
+    // the TMPDIR of the scrut process: tmp/ itself or a sub-directory with a hostile name
+    let tmp_dir = if case.tmp_sub.is_empty() { sb.tmp.clone() } else { sb.tmp.join(&case.tmp_sub) };
+    let _ = std::fs::create_dir_all(&tmp_dir);
+    let Some(tmp_canon) = canon(&tmp_dir) else {
         return Checked::inconclusive("cannot canonicalize the sandbox TMPDIR");
     };
-    if !sb.tmp_listing().is_empty() {
-        return Checked::inconclusive("sandbox TMPDIR not empty before the run");
+    {
+        let (inside, misplaced) = split_tree(&sb, &case.tmp_sub);
+        if !inside.is_empty() || !misplaced.is_empty() {
+            return Checked::inconclusive("sandbox TMPDIR not empty before the run");
+        }
     }
+    let tmp_dir_str = tmp_dir.display().to_string();
 
     // run
     let build = |p: &Proc| -> ScrutCmd {
-        let mut c = ScrutCmd::new(&sb, &["test", "--no-color", "-r", p.renderer.as_str()]);
+        let mut c = ScrutCmd::new(&sb, &["test", "--no-color", "-r", p.renderer.as_str()]).env("TMPDIR", &tmp_dir_str);
         for a in &p.args {
             let s = if a.doc < 0 {
                 a.lit.clone()
@@ -653,7 +758,7 @@ fn check_inner(env: &Env, case: &C18Case, pre: &mut Vec<String>) -> Checked {
         match mode {
             "keep" => c = c.arg("--keep-temporary-directories"),
             "workdir" => {
-                c = c.arg("--work-directory").arg(if case.workdir_relative { "../W".to_string() } else { wdir.display().to_string() })
+                c = c.arg("--work-directory").arg(if case.workdir_relative { format!("../wd/{wname}") } else { wdir.display().to_string() })
             }
             _ => {}
         }
@@ -693,8 +798,9 @@ fn check_inner(env: &Env, case: &C18Case, pre: &mut Vec<String>) -> Checked {
     };
 
     // observations right after exit
-    let tree0 = sb.tmp_tree();
+    let (tree0, mis0) = split_tree(&sb, &case.tmp_sub);
     let w0 = work_listing(&wdir);
+    let wmis0 = beside(&wd_parent, wname);
     let markers = sb.markers();
     let trace = sb.trace_events();
     let kill_all = |runs: &[Run]| {
@@ -730,8 +836,9 @@ fn check_inner(env: &Env, case: &C18Case, pre: &mut Vec<String>) -> Checked {
     if case.delay_ms > 0 {
         std::thread::sleep(Duration::from_millis(case.delay_ms));
     }
-    let tree1 = sb.tmp_tree();
+    let (tree1, mis1) = split_tree(&sb, &case.tmp_sub);
     let w1 = work_listing(&wdir);
+    let wmis1 = beside(&wd_parent, wname);
     let existing1: Vec<String> = obs_dirs.iter().filter(|d| Path::new(d).exists()).cloned().collect();
     kill_all(&runs);
 
@@ -753,6 +860,18 @@ fn check_inner(env: &Env, case: &C18Case, pre: &mut Vec<String>) -> Checked {
     }
     if !recs.is_empty() {
         pre.push("observed:tests-ran".to_string());
+    }
+    pre.push(format!("path:tmpdir={}", path_char_class(&case.tmp_sub)));
+    if mode == "workdir" {
+        pre.push(format!("path:workdir={}", path_char_class(&case.workdir_name)));
+    }
+    {
+        let classes: BTreeSet<String> = case
+            .procs
+            .iter()
+            .flat_map(|p| p.docs.iter().filter(|d| d.raw.is_empty()).map(|d| format!("path:doc={}:{}", path_char_class(&d.rel), d.format)))
+            .collect();
+        pre.extend(classes);
     }
 
     // ---- (1) work directories -------------------------------------------------------------------
@@ -940,6 +1059,26 @@ fn check_inner(env: &Env, case: &C18Case, pre: &mut Vec<String>) -> Checked {
     }
 
     // ---- (3) clean-up -----------------------------------------------------------------------------
+    // anything that appeared next to (instead of inside) the TMPDIR / work directory that was given: a path
+    // that was re-interpreted by a shell. With --keep-temporary-directories nothing is judged.
+    if mode != "keep" {
+        for (when, mis, wmis) in [("exit", &mis0, &wmis0), ("late", &mis1, &wmis1)] {
+            if !mis.is_empty() {
+                return Checked::violated(
+                    format!("C18/cleanup-{when}/misplaced/mode={mode}/left={}/tmpdir-char={}", misplaced_kind(mis), path_char_class(&case.tmp_sub)),
+                    detail(&format!("TMPDIR of the scrut process was {:?}; ({when}) left beside it: {:?}", tmp_dir, mis.iter().take(8).collect::<Vec<_>>())),
+                );
+            }
+            if !wmis.is_empty() {
+                return Checked::violated(
+                    format!("C18/cleanup-{when}/misplaced/mode={mode}/left={}/workdir-char={}", misplaced_kind(wmis), path_char_class(&case.workdir_name)),
+                    detail(&format!("--work-directory was {:?}; ({when}) left beside it: {:?}", wdir, wmis.iter().take(8).collect::<Vec<_>>())),
+                );
+            }
+        }
+    } else if !mis0.is_empty() || !mis1.is_empty() {
+        ck = ck.bucket("keep:misplaced-unjudged");
+    }
     match mode {
         "default" => {
             for (when, tree, existing) in [("exit", &tree0, &existing0), ("late", &tree1, &existing1)] {
@@ -1097,6 +1236,25 @@ fn shrink(case: &C18Case) -> Vec<C18Case> {
         c.hostile_env = false;
         v.push(c);
     }
+    if !case.tmp_sub.is_empty() {
+        let mut c = case.clone();
+        c.tmp_sub.clear();
+        v.push(c);
+    }
+    if !case.workdir_name.is_empty() {
+        let mut c = case.clone();
+        c.workdir_name.clear();
+        v.push(c);
+    }
+    for (pi, p) in case.procs.iter().enumerate() {
+        for (di, d) in p.docs.iter().enumerate() {
+            if path_char_class(&d.rel) != "plain" {
+                let mut c = case.clone();
+                c.procs[pi].docs[di].rel = format!("plain{pi}x{di}/doc.{}", ext(&d.format));
+                v.push(c);
+            }
+        }
+    }
     if case.shell == "symlink" || case.shell == "bare" {
         let mut c = case.clone();
         c.shell.clear();
@@ -1149,9 +1307,16 @@ impl Monitor for C18 {
             ("cleanup:kept-directories-present".into(), tier.pick(5, 30)),
             ("cleanup:workdir-kept-and-clean".into(), tier.pick(4, 25)),
             ("timeout:reported".into(), tier.pick(7, 45)),
+            ("path:doc=dollar:cram".into(), tier.pick(1, 12)),
+            ("path:doc=backtick:cram".into(), tier.pick(1, 6)),
+            ("path:doc=dollar:md".into(), tier.pick(3, 20)),
+            ("path:tmpdir=dollar".into(), tier.pick(4, 25)),
+            ("path:tmpdir=backtick".into(), tier.pick(2, 20)),
+            ("path:workdir=dollar".into(), tier.pick(1, 8)),
             ("burst:processes-observed=8".into(), tier.pick(2, 14)),
         ]);
         p.assumptions = vec![
+            "document directories / file names, the TMPDIR of the scrut process and the --work-directory also get names containing $ (unset variables), backticks (harmless command substitutions), double and single quotes, backslashes and blanks; whatever then appears beside (instead of inside) the given TMPDIR / work directory is a clean-up violation `misplaced` (not judged with --keep-temporary-directories)".into(),
             "O-1: no generated test modifies TESTDIR, TESTFILE, TESTSHELL, TMPDIR, SCRUT_TEST, the locale/terminal variables, or changes directory".into(),
             "with --work-directory the sharing of the directory between documents is the documented behaviour and is not judged".into(),
             "paths are compared after canonicalisation (TESTDIR, TESTSHELL, the path part of SCRUT_TEST); the line part of SCRUT_TEST must lie inside the code block of the test".into(),
